@@ -36,23 +36,34 @@ def discharge(path, obl, timeout_ms=10000, use_cvc5=True, extra=()):
 
 
 def _discharge(path, obl, goal, timeout_ms, use_cvc5, extra):
+    """several short attempts with different seeds beat one long one: E-matching proofs here either
+    succeed in milliseconds or diverge, and which of the two can depend on instantiation order"""
     hyps = hyps_of(path, obl) + list(extra)
-    s = z3.Solver()
-    s.set("timeout", timeout_ms)
-    for a in base_axioms():
-        s.add(a)
-    for h in hyps:
-        s.add(h)
-    s.add(Not(goal))
-    t = time.time()
-    r = s.check()
-    dt = time.time() - t
-    if r == z3.unsat:
-        return Verdict("discharged", "z3", dt)
+    axioms = base_axioms()
+    total = 0.0
     detail = ""
-    if r == z3.sat:
-        detail = "z3: sat"
-    else:
+    last = None
+    s = None
+    for attempt, seed in enumerate((0, 11, 42)):
+        s = z3.Solver()
+        s.set("timeout", max(1000, timeout_ms // 3))
+        if seed:
+            s.set("random_seed", seed)
+            s.set("smt.random_seed", seed)
+        for a in axioms:
+            s.add(a)
+        for h in hyps:
+            s.add(h)
+        s.add(Not(goal))
+        t = time.time()
+        r = s.check()
+        total += time.time() - t
+        last = r
+        if r == z3.unsat:
+            return Verdict("discharged", "z3" if attempt == 0 else "z3(seed %d)" % seed, total)
+        if r == z3.sat:
+            detail = "z3: sat"
+            break
         detail = "z3: unknown (%s)" % s.reason_unknown()
     if use_cvc5:
         v = cvc5_check(s, timeout_ms)
@@ -60,7 +71,7 @@ def _discharge(path, obl, goal, timeout_ms, use_cvc5, extra):
             if v.status == "discharged":
                 return v
             detail += "; cvc5: " + v.detail
-    return Verdict("failed" if r == z3.sat else "unknown", "z3", dt, detail)
+    return Verdict("failed" if last == z3.sat else "unknown", "z3", total, detail)
 
 
 def cvc5_check(solver, timeout_ms):
